@@ -455,7 +455,9 @@ class LP:
             raise Unsupported("linprog called with %s" % sorted(extra))
         bounds = k.get("bounds")
         if bounds != (None, None):
-            raise Unsupported("linprog bounds %r (only free variables are modelled)" % (bounds,))
+            # precondition of the assumed contract A4 at this call site: every variable is free.  scipy's default is
+            # x >= 0, which is a different problem: reported as a failed obligation, then modelled as free.
+            self.h.check("A4.linprog_called_with_free_variables", False, "linprog called with bounds=%r: the problem solved is not the one over all reals" % (bounds,))
         c, A, b = vals.get("c"), vals.get("A_ub"), vals.get("b_ub")
         space = self.space_for(c, A)
         rows = space.rows_of(A)
